@@ -88,7 +88,7 @@ pub fn replay(opts: &HashMap<String, String>) -> Value {
 
 fn replay_fl<F: Fl>(opts: &HashMap<String, String>) -> Value {
     let cases = opts.get("cases").expect("--cases");
-    let max_viol: usize = opts.get("max-violations").map(|s| s.parse().unwrap()).unwrap_or(400);
+    let max_viol: usize = opts.get("max-violations").map(|s| s.parse().unwrap()).unwrap_or(6000);
     let mut n_cases = 0usize;
     let mut n_exec = 0usize;
     let mut agree = 0usize;
@@ -97,6 +97,10 @@ fn replay_fl<F: Fl>(opts: &HashMap<String, String>) -> Value {
     let mut nontrivial: HashSet<u64> = HashSet::new();
     let mut samples: Vec<Value> = vec![];
     let mut by_kind: HashMap<String, usize> = HashMap::new();
+    // disagreements are kept per class, so that one frequent (possibly harmless) class
+    // cannot crowd out a rare one before TLC has judged it
+    let mut per_bucket: HashMap<String, usize> = HashMap::new();
+    let bucket_cap: usize = opts.get("bucket-cap").map(|s| s.parse().unwrap()).unwrap_or(25);
     use std::hash::{Hash, Hasher};
 
     tlcio::for_each_case(cases, |case| {
@@ -170,7 +174,11 @@ fn replay_fl<F: Fl>(opts: &HashMap<String, String>) -> Value {
                     }
                 } else {
                     n_mismatch += 1;
-                    if mismatches.len() < max_viol {
+                    let bucket = format!("{}|{}|{}|{}|{}|{}|{}|{}", kind.name(), q["dir"], cyc, entry.name(), meth_name(m), rej.len().min(2),
+                        if obs.res != exp_res { res_tag(&obs.res) } else { "examined-only" }, res_tag(&exp_res));
+                    let cnt = per_bucket.entry(bucket).or_insert(0);
+                    *cnt += 1;
+                    if *cnt <= bucket_cap && mismatches.len() < max_viol {
                         mismatches.push(json!({"flavour": F::NAME, "out": st.out, "inn": st.inn, "nval": nval,
                             "kind": kind.name(), "root": root, "dir": q["dir"], "cyc": cyc, "rej": q["rej"],
                             "target": target.unwrap_or(0), "entry": entry.name(), "meth": meth_name(m),
@@ -183,7 +191,7 @@ fn replay_fl<F: Fl>(opts: &HashMap<String, String>) -> Value {
     })
     .expect("read cases");
     json!({"flavour": F::NAME, "cases": n_cases, "executions": n_exec, "agree": agree, "n_mismatch": n_mismatch,
-           "mismatches": mismatches, "samples": samples, "distinct_nontrivial": nontrivial.len(), "by_kind": by_kind,
+           "mismatches": mismatches, "mismatch_classes": per_bucket, "samples": samples, "distinct_nontrivial": nontrivial.len(), "by_kind": by_kind,
            "lock_points_seen": guard::LOCK_POINTS.load(std::sync::atomic::Ordering::Relaxed)})
 }
 
